@@ -21,6 +21,12 @@ import efflib
 def run(c):
     if c.replay:
         rp = json.load(open(c.replay))
+        if rp.get("kind") == "unitnil":
+            _, uout = c.harness("unitnil", [], name="replay-unitnil")
+            for rej in c.validate(uout, "TraceEffect", max_rejects=6):
+                ev = rej["line"]
+                c.report("C01:unit-nil:%s:%s" % (ev["monad"], ev["fn"]), dict(kind="unitnil", observed=ev), "replayed: %s" % json.dumps(ev)[:300])
+            return
         out = efflib.run_and_judge(c, "C01", [rp["case"]], "replay")
         return
     rng = random.Random(c.seed)
@@ -34,6 +40,13 @@ def run(c):
         out = efflib.run_and_judge(c, "C01", cases, "c01-" + m)
         efflib.count(c, out, "programs run on the real try/option/either packages (every TLC-exported semantic program x every fitting "
                      "library function + seeded random nested programs); non-trivial = some operand fails or a callback runs")
+    # the unit on nil payloads of nillable types (the programs above carry non-nil []int payloads)
+    _, uout = c.harness("unitnil", [], name="c01-unitnil")
+    for rej in c.validate(uout, "TraceEffect", max_rejects=6):
+        ev = rej["line"]
+        c.report("C01:unit-nil:%s:%s" % (ev["monad"], ev["fn"]), dict(kind="unitnil", observed=ev),
+                 "%s.%s on the nil value of a %s type: defined=%s, continuation called with nil=%s - the unit must be total (EffectSpec!U)" % (
+                     ev["monad"], ev["fn"], ev["kind"], ev["ok"], ev["called"]))
     # the other monads of the property, through their own specifications (small runs; C12/C16/C17 go deeper):
     # Seq / List / Iterator FlatMap-Map coherence against SeqSpec, lazy List cells, StateT and lazy.Eval programs
     import iterlib
